@@ -4,6 +4,12 @@ import json, os, subprocess
 ROOT = os.path.dirname(os.path.abspath(__file__))
 ALL = ["C%02d" % i for i in range(1, 21)]
 CHECKS = {
+ "C13": dict(engine="tlc+vh-replay", technique="TLA+ spec Registry.tla; TLC state graph, every transition replayed on real RpcModule values with full state projection after each call",
+             text="Registry.tla models a module as a name->handler-tag map with register/alias/merge/remove/clone; TLC checks atomicity of failed calls, exact additions and clone isolation on the model and emits one case per transition of the bounded state graph; each is replayed on real RpcModules comparing Result class, method_names() and the dispatch outcome of every name on every module value after every call.",
+             note="names {a,b,c}, 3 module slots, call sequences up to MaxDepth+1; sync/async/blocking rotated by the harness", ref="5 (C13)"),
+ "C16": dict(engine="tlc+vh-replay", technique="TLA+ spec ParamsSeq.tla (cursor state machine); TLC enumerates every (array shape, cursor position, typed read, second read) case; replayed into Params/ParamsSequence and compared with a plain serde_json parse",
+             text="ParamsSeq.tla states the reader's result for every typed read at every cursor position (element / -32602 / absent, poisoning after a failure); TLC enumerates the bounded case space exhaustively and every case is run against the real reader under four whitespace patterns, comparing each returned element with the element of a plain JSON parse at that index.",
+             note="element classes and Rust target types are abstract classes; concrete texts are seeded samples incl. delimiters inside strings, escapes, nested containers", ref="5 (C16)"),
  "C20": dict(engine="tlc+vh-replay", technique="TLA+ spec ParamsBuilder.tla exhaustively enumerated by TLC; every behaviour replayed into the real builders (spec->impl conformance)",
              text="TLC enumerates every bounded insert/failing-insert/build behaviour of ParamsBuilder.tla (design invariants: build never panics, build = successfully inserted values, empty = no params) and each behaviour is replayed against ArrayParams/ObjectParams/BatchRequestBuilder/ToRpcParams impls of the current tree with seeded concrete values; the as-is config documents finding F15.",
              note="abstract behaviours exhaustive up to MaxOps; concrete values are seeded samples; serde_json is the reference parser", ref="5 (C20)"),
